@@ -6,6 +6,7 @@
     stream before with a fixed number of words dropped);
   * Binomial: exactly `n` words, count in `[0, n]` = `[min, max]`;
   * Bernoulli: the `f64` variate is `0` or `1`;
+  * StudentsT: with `freedom = ∞` the sampler is the Normal(location, scale) sampler (new guard);
   * Hypergeometric (current tree): `draws = 0` returns `0` without touching the RNG; for
     `draws ≥ 1` the loop runs exactly `draws` times (one word each) and the count is in `[0, draws]`;
   * DiscreteUniform: the value is in `[min, max]` (or the fuel sentinel) for every well-formed stream;
@@ -15,6 +16,7 @@
   Strength: full(∀α).
 -/
 import Statrs.Model.Samplers
+import Statrs.Inst.Float
 import Statrs.Gen.D_binomial
 import Statrs.Gen.D_hypergeometric
 import Statrs.Gen.D_discrete_uniform
@@ -83,6 +85,41 @@ theorem geometric_consumes (d : Geometric α) (r : Rng) :
   split_ifs
   · exact Consumes.zero r
   · exact nextU64_consumes r
+
+/-! ### StudentsT: the `freedom = ∞` branch -/
+
+/-- StudentsT with `freedom = ∞` (after the source fix: `if self.freedom.is_infinite() { return
+    normal::sample_unchecked(r, location, scale) }`): the sampler IS the Normal(location, scale)
+    sampler — same variate, same remaining stream, on every carrier.  (Before the fix the gamma mixing
+    variate was drawn with shape `∞` and the draw was `∞/∞` = NaN.) -/
+theorem studentsT_sample_inf_eq_normal (d : StudentsT α) (hinf : RFun.isInf d.f_freedom = true)
+    (r : Rng) :
+    Model.StudentsT.sample_f64 d r = Model.Normal.sample_f64 ⟨d.f_location, d.f_scale⟩ r := by
+  unfold Model.StudentsT.sample_f64 Model.Normal.sample_f64
+  rw [if_pos hinf]
+
+/-- … in particular no gamma variate is drawn: the draw is `location + scale·z` for the one standard
+    normal `z` taken from the stream -/
+theorem studentsT_sample_inf_eq (d : StudentsT α) (hinf : RFun.isInf d.f_freedom = true) (r : Rng) :
+    Model.StudentsT.sample_f64 d r
+      = (d.f_location + d.f_scale * (sample_std_normal (α := α) r).1, (sample_std_normal (α := α) r).2) := by
+  rw [studentsT_sample_inf_eq_normal d hinf]
+  unfold Model.Normal.sample_f64 normal_sample_unchecked
+  rfl
+
+/-- for FINITE `freedom` the sampler is Devroye's method: `Normal(location, scale·√(ν/G))` with
+    `G ~ Gamma(ν/2, 1/2)` drawn first -/
+theorem studentsT_sample_of_finite (d : StudentsT α) (hfin : RFun.isInf d.f_freedom = false)
+    (r : Rng) :
+    Model.StudentsT.sample_f64 d r
+      = normal_sample_unchecked (α := α)
+          (gamma_sample_unchecked (α := α) r ((0.5 : α) * d.f_freedom) (0.5 : α)).2 d.f_location
+          (d.f_scale * (RFun.sqrt (d.f_freedom /
+            (gamma_sample_unchecked (α := α) r ((0.5 : α) * d.f_freedom) (0.5 : α)).1))) := by
+  unfold Model.StudentsT.sample_f64
+  rw [if_neg (by rw [hfin]; exact Bool.false_ne_true)]
+
+example : ∃ d : StudentsT Float, RFun.isInf d.f_freedom = true := ⟨⟨0, 1, RFun.inf⟩, by decide⟩
 
 /-! ### Bernoulli -/
 
